@@ -31,6 +31,8 @@ type Kernel struct {
 	NoMapPermute bool
 	// Stub: goverter functions (ssa names) replaced by stubs returning zero values
 	Stub []string
+	// SetInts assigns package-level int variables of the harness package (bounds per tier)
+	SetInts map[string]int
 }
 
 // NondetRec records one nondet intrinsic call on a path.
@@ -275,6 +277,11 @@ func (s *Session) Run(k Kernel) *KernelResult {
 		// package initialisers the kernels depend on
 		if f := pkg.Func("init"); f != nil {
 			r.CallFunction(f, nil, nil)
+		}
+		for name, v := range k.SetInts {
+			if g, ok := pkg.Members[name].(*ssa.Global); ok {
+				*r.Global(g) = engine.BVConst(64, uint64(v))
+			}
 		}
 		cr := r.CallGuarded(hfn, nil)
 		if cr.Panic != nil {
